@@ -5,6 +5,14 @@
 #include "vh.h"
 #include "vh_fam.h"
 
+/* blocks of sizes nobody asks for again fill the block cache: from then on every release - also those made concurrently by
+ * the parallel sections of the multi-core products - has to evict an entry */
+static void fill_block_cache(void) {
+  mzd_t *T[24];
+  for (int i = 0; i < 24; i++) T[i] = mzd_init(1, 64 * (900 + 7 * i));
+  for (int i = 0; i < 24; i++) mzd_free(T[i]);
+}
+
 static void omp_case(int kind) {
   vh_ev_t e;
   switch (kind) {
@@ -16,7 +24,11 @@ static void omp_case(int kind) {
   }
   case 3: case 4: { /* mp front ends: four sections + remainder strips that are not multiples of 128 */
     int m = vh_pick((int[]){5, 70, 256, 300, 383, 385, 420, 520}, 8), l = vh_pick((int[]){256, 260, 300, 391}, 4), n = vh_pick((int[]){3, 256, 257, 330, 400}, 5);   /* also fewer rows / columns than threads */
+    int full_cache = vh_randint(0, 2) != 0;
+    if (full_cache) fill_block_cache();
     vh_mul_case(kind == 3 ? 14 : 15, m, l, n, 0, 0, vh_pick((int[]){0, 64, 128, 256}, 4), vh_randint(0, 1));
+    if (full_cache)   /* twice more on the same history */
+      for (int r = 0; r < 2; r++) vh_mul_case(kind == 3 ? 14 : 15, m, l, n, 0, 0, vh_pick((int[]){0, 64, 128}, 3), vh_randint(0, 1));
     return;
   }
   default: { /* elimination: process_rows loops over > 512 rows */
